@@ -88,14 +88,14 @@ impl Spec {
         match *self {
             Spec::Unimpl => vec![DSLOT],
             Spec::Io { k, m, addr } => vec![Slot { kind: 1, mask: fmask(k, m), val: addr | 1 }],
-            Spec::Mem { ty, pf, k, m, addr } => vec![Slot { kind: 2 + ty, mask: fmask(k, m), val: addr | ((ty as u32) << 1) | ((pf as u32) << 3) }],
+            Spec::Mem { ty, pf, k, m, addr } => vec![Slot { kind: if ty <= 1 { 2 + ty } else { 6 }, mask: fmask(k, m), val: addr | ((ty as u32) << 1) | ((pf as u32) << 3) }],
             Spec::Mem64 { pf, k, m, addr } => vec![
                 Slot { kind: 4, mask: fmask(k.min(32), m.min(32)), val: (addr as u32) | 4 | ((pf as u32) << 3) },
                 Slot { kind: 5, mask: fmask(k.saturating_sub(32), m.saturating_sub(32)), val: (addr >> 32) as u32 }],
         }
     }
     fn narrow(&self) -> bool { match self { Spec::Unimpl => false, Spec::Io { m, .. } | Spec::Mem { m, .. } => *m < 32, Spec::Mem64 { m, .. } => *m < 64 } }
-    fn name(&self) -> &'static str { match self { Spec::Unimpl => "unimpl", Spec::Io { .. } => "io", Spec::Mem { ty: 0, .. } => "mem32", Spec::Mem { .. } => "below1m", Spec::Mem64 { .. } => "mem64" } }
+    fn name(&self) -> &'static str { match self { Spec::Unimpl => "unimpl", Spec::Io { .. } => "io", Spec::Mem { ty: 0, .. } => "mem32", Spec::Mem { ty: 1, .. } => "below1m", Spec::Mem { .. } => "mem_reserved_type", Spec::Mem64 { .. } => "mem64" } }
 }
 /// a size-aligned address for a 2^k BAR inside `bits` address bits: mostly non-zero
 pub fn aligned_addr(ctx: &mut Ctx, k: u32, bits: u32) -> u64 {
@@ -111,7 +111,7 @@ fn random_spec(ctx: &mut Ctx, allow64: bool) -> Spec {
     match ctx.rng.below(if allow64 { 6 } else { 4 }) {
         0 => Spec::Unimpl,
         1 => { let k = ctx.rng.range(2, 31) as u32; let m = top_for(ctx, k, 32, 16); Spec::Io { k, m, addr: aligned_addr(ctx, k, m) as u32 } }
-        2 | 3 => { let k = ctx.rng.range(4, 31) as u32; let ty = ctx.rng.below(2) as u8; let m = top_for(ctx, k, 32, if ty == 1 { 20 } else { 24 });
+        2 | 3 => { let k = ctx.rng.range(4, 31) as u32; let ty = if ctx.rng.chance(1, 12) { 3 } else { ctx.rng.below(2) as u8 }; let m = top_for(ctx, k, 32, if ty == 1 { 20 } else { 24 });
                    Spec::Mem { ty, pf: ctx.rng.chance(1, 2), k, m, addr: aligned_addr(ctx, k, m) as u32 } }
         _ => { let k = ctx.rng.range(4, 63) as u32; let m = top_for(ctx, k, 64, 48); Spec::Mem64 { pf: ctx.rng.chance(1, 2), k, m, addr: aligned_addr(ctx, k, m) } }
     }
@@ -261,6 +261,8 @@ fn bar_scenarios(ctx: &mut Ctx) {
     for k in 2..=30 { if k % 2 == 1 { specs.push(Spec::Io { k, m: k + 1 + (k * 7) % (31 - k), addr: 0 }); } }
     for k in 4..=19 { specs.push(Spec::Mem { ty: 1, pf: k % 2 == 0, k, m: 20, addr: 0 }); }
     for m in [24u32, 31] { for k in 4..m { specs.push(Spec::Mem { ty: 0, pf: k % 2 == 1, k, m, addr: 0 }); } }
+    // the reserved memory type encoding (bits 2:1 = 0b11): an error, with command and BARs left as they were
+    for pf in [false, true] { for k in [4u32, 12, 20, 31] { specs.push(Spec::Mem { ty: 3, pf, k, m: 32, addr: 0 }); } }
     for m in [32u32, 33, 40, 48, 63] { for k in 4..m { if (k + m) % 2 == 0 || k + 1 == m || k == 4 { specs.push(Spec::Mem64 { pf: k % 4 < 2, k, m, addr: 0 }); } } }
     for slot in 0..6usize {
         ctx.tr.scenario(&format!("c12-bar-slot{}", slot));
@@ -286,7 +288,7 @@ fn bar_scenarios(ctx: &mut Ctx) {
     // all directed commands on one BAR of each kind
     ctx.tr.scenario("c12-bar-commands");
     for sp in [Spec::Unimpl, Spec::Io { k: 8, m: 32, addr: 0xc000 }, Spec::Io { k: 5, m: 16, addr: 0xffe0 }, Spec::Mem { ty: 0, pf: true, k: 12, m: 32, addr: 0xfebf_1000 },
-               Spec::Mem { ty: 1, pf: false, k: 16, m: 20, addr: 0x000a_0000 }, Spec::Mem64 { pf: true, k: 34, m: 64, addr: 0x0000_0038_0000_0000 },
+               Spec::Mem { ty: 1, pf: false, k: 16, m: 20, addr: 0x000a_0000 }, Spec::Mem { ty: 3, pf: false, k: 12, m: 32, addr: 0xfeb0_0000 }, Spec::Mem64 { pf: true, k: 34, m: 64, addr: 0x0000_0038_0000_0000 },
                Spec::Mem64 { pf: false, k: 14, m: 48, addr: 0x0000_ffff_ffff_c000 }] {
         for c in &cmds {
             let slot = ctx.rng.below(5) as usize;
